@@ -36,6 +36,8 @@ pub fn build_with_splitter(op: &str, a: &mut Args, q: &mut Qbvh<u32>, cur: &mut 
             if refuse > 0 && (id as usize) % refuse == 0 { return SplitResult::Negative; }
             let mut s = st.borrow_mut();
             let mut c = curc.borrow_mut();
+            // a build that keeps cutting for ever (never seen on the unchanged tree) must not eat the machine's memory
+            if s.0 >= base + 20000 { panic!("more than 20000 cuts"); }
             let nid = s.0; s.0 += 1;
             let need = nid.max(id as usize) + 1;
             if c.len() < need { c.resize(need, Aabb::new_invalid()); }
